@@ -6,6 +6,8 @@ mod common;
 mod engine;
 mod genseq;
 mod unit;
+mod json;
+mod evalu;
 
 use std::io::{BufRead, Write};
 
@@ -73,10 +75,22 @@ fn main() {
             let out = arg_s(&args, "--out", "");
             let f = std::io::BufReader::new(std::fs::File::open(path).expect("open req"));
             let mut eng = Engine::new();
+            let mut un = unit::Unit::new();
             let mut exp = String::new();
             let mut n = 0;
             for line in f.lines() {
                 let line = line.unwrap();
+                if let Some(a) = un.exec_line(&line).or_else(|| evalu::exec_line(&mut un, &line)) {
+                    eng.line += 1;
+                    for mut v in un.violations.drain(..) {
+                        v.line = eng.line;
+                        eng.violations.push(v);
+                    }
+                    exp.push_str(&a);
+                    exp.push('\n');
+                    n += 1;
+                    continue;
+                }
                 if let Some(a) = eng.exec(&line) {
                     exp.push_str(&a);
                     exp.push('\n');
@@ -139,6 +153,12 @@ fn main() {
             let mut rng = Rng(seed ^ 0xabcd);
             match what.as_str() {
                 "fza" => u.fza(&mut rng, n),
+                "sbuf" => {
+                    let ex: usize = arg(&args, "--exhaustive", 5);
+                    u.sbuf(&mut rng, n, ex)
+                }
+                "sbest" => u.sbest(&mut rng, n),
+                "req" => evalu::req(&mut u, &mut rng, n),
                 _ => {
                     eprintln!("unknown unit {what}");
                     std::process::exit(2);
